@@ -38,6 +38,8 @@ type c29Scenario struct {
 	ServerName  string  `json:"server_name"`
 	Second      string  `json:"second,omitempty"` // a second connection re-uses the same ClientFingerprintConfiguration object with this Config.ServerName
 	ClockOffset int     `json:"clock_offset_s"` // simulated seconds that pass before the client starts
+	Repeat      bool    `json:"repeat,omitempty"`     // extension types may occur more than once in the configured list
+	Resuite     bool    `json:"resuite,omitempty"`    // before a second connection the same fingerprint object gets another suite list of the same length
 	Net         NetCfg  `json:"net"`
 	Tape        []int   `json:"tape,omitempty"`
 }
@@ -61,6 +63,10 @@ func genC29(seed uint64, tier string) any {
 	}
 	sc.Timestamp = r.Bool()
 	sc.SessionID = r.Bytes([]int{0, 0, 1, 16, 32}[r.Intn(5)])
+	if r.Chance(1, 12) {
+		sc.SessionID = r.Bytes([]int{33, 48, 64, 255}[r.Intn(4)]) // longer than TLS allows, but what the configuration says goes on the wire
+	}
+	sc.Repeat = r.Chance(1, 8)
 	n := r.Range(1, 12)
 	if r.Chance(1, 12) {
 		n = []int{127, 128, 129, 130, 200, 255, 256, 300}[r.Intn(8)] // list lengths around the one-byte boundaries of the length prefix
@@ -88,8 +94,8 @@ func genC29(seed uint64, tier string) any {
 		if k == "ticket_auto" || k == "ticket_auto_preset" {
 			base = "ticket"
 		}
-		if used[base] && k != "null" {
-			continue // a ClientHello must not repeat an extension type
+		if used[base] && k != "null" && !(sc.Repeat && base != "sni" && base != "ticket") {
+			continue // a ClientHello should not repeat an extension type (Repeat: the configuration does it anyway)
 		}
 		used[base] = true
 		e := fpExt{Kind: k}
@@ -122,6 +128,7 @@ func genC29(seed uint64, tier string) any {
 		sc.Exts = append(sc.Exts, e)
 	}
 	sc.CacheMode = r.Pick([]int{3, 1, 1})
+	sc.Resuite = r.Chance(1, 5)
 	sc.ClockOffset = []int{0, 1, 3600, 86400 * 365 * 5, 86400 * 365 * 30}[r.Intn(5)]
 	sc.Net = genNet(r)
 	return sc
@@ -315,6 +322,20 @@ func execC29(t *testing.T, scAny any, keepLog bool) *Outcome {
 				o.Fail.Msg = "second connection re-using the fingerprint configuration: " + o.Fail.Msg
 			}
 		}
+		if o.Fail == nil && sc.Resuite && sc.CacheMode == 0 && len(sc.Suites) > 1 {
+			// the application edits the fingerprint it keeps: another suite list of the same length (reversed)
+			sc3 := *sc
+			sc3.Suites = append([]uint16(nil), sc.Suites...)
+			for i, j := 0, len(sc3.Suites)-1; i < j; i, j = i+1, j-1 {
+				sc3.Suites[i], sc3.Suites[j] = sc3.Suites[j], sc3.Suites[i]
+			}
+			fp.CipherSuites = sc3.Suites
+			o.count("probe.fingerprint_suites_edited_between_connections", 1)
+			connect("3", ccfg, &sc3)
+			if o.Fail != nil {
+				o.Fail.Msg = "connection after the fingerprint's suite list was replaced by one of the same length: " + o.Fail.Msg
+			}
+		}
 		if o.Fail == nil && (len(s.Deadlock) > 0 || s.StepCapHit) {
 			o.Fail = Failf("c29.stuck", "tasks did not finish", "deadlock=%v", s.Deadlock)
 		}
@@ -395,6 +416,12 @@ func c29Check(sc *c29Scenario, cn *kit.Conn, server *tls.Conn, crand *kit.Reader
 	}
 	o.count("probe.extension_block_compared", 1)
 	// the server's parser must read the configured values back
+	if len(sc.SessionID) > 32 || sc.Repeat {
+		// not a well-formed ClientHello any more (session id longer than 32 bytes / repeated extension types): what a
+		// parser makes of it is not part of the property
+		o.count("probe.readback_skipped_malformed_by_configuration", 1)
+		return nil
+	}
 	sl := server.GetHandshakeLog()
 	if sl == nil || sl.ClientHello == nil {
 		if sErr != nil {
